@@ -81,6 +81,41 @@ def record_table():
     return groups
 
 
+def annotation_table():
+    """function definitions of several kinds (plain, with a default argument, recursive, recursive with a default,
+    stateful with a default, higher order, tuple in / out) x where agreeing annotations are written (nowhere, on the
+    parameters, on the result, on both, on one parameter) x how the function is called; the first variant of a group
+    is the reference"""
+    F, P = "float", "(float, float)"
+    kinds = {
+        # name: (parameters [(name, type, default)], result type, body, calls)
+        "plain": ([("x", F, None), ("y", F, None)], F, "x * 10 + y", ["f(3, now)"]),
+        "default": ([("x", F, None), ("y", F, "2")], F, "x * 10 + y", ["f({x = 3})", "f({x = 3, ..})", "f(3, 4)", "f({x = now, y = 1})"]),
+        "recursive": ([("n", F, None), ("acc", F, None)], F, "if (n > 0) f(n - 1, acc + n) else acc", ["f(3, now)"]),
+        "recursive_default": ([("n", F, None), ("acc", F, "0")], F, "if (n > 0) f(n - 1, acc + n) else acc",
+                              ["f({n = 3})", "f({n = 3, ..})", "f(3, now)"]),
+        "stateful_default": ([("x", F, None), ("g", F, "2")], F, "self + x * g", ["f({x = 1})", "f({x = 1, ..})", "f(1, 3)"]),
+        "higher_order": ([("g", "(float)->float", None), ("x", F, None)], F, "g(x) + g(x + 1)", ["f(|v| v * 2, now)"]),
+        "tuple_io": ([("p", P, None)], P, "(p.1 + 1, p.0)", ["f((now, 2)).0", "f(f((1, now))).1"]),
+    }
+    groups = {}
+    for kname, (params, ret, body, calls) in kinds.items():
+        for ci, call in enumerate(calls):
+            vs = []
+            places = [("none", set(), False), ("params", {p[0] for p in params}, False), ("result", set(), True),
+                      ("both", {p[0] for p in params}, True)] + [(f"only_{p[0]}", {p[0]}, False) for p in params]
+            if kname == "tuple_io":
+                # a projection of an unannotated parameter has no inferred type to agree with: the parameter is
+                # annotated in every variant (the first one is the reference)
+                places = [pl for pl in places if "p" in pl[1]]
+            for pname, annotated, with_ret in places:
+                ps = ", ".join(n + (f":{t}" if n in annotated else "") + (f" = {d}" if d else "") for n, t, d in params)
+                head = f"fn f({ps})" + (f" -> {ret}" if with_ret else "")
+                vs.append((pname, f"{head}{{\n  {body}\n}}\nfn dsp(){{\n  {call}\n}}\n"))
+            groups[f"ann_{kname}_{ci}"] = vs
+    return groups
+
+
 def run(tier):
     chk = vlib.Check("C16", "model_checking", tier)
     vlib.build_harness()
@@ -151,6 +186,7 @@ def run(tier):
     # fields in either order, written as an annotation, an alias or a parameter type; every variant of a template
     # computes the same numbers
     groups = record_table()
+    groups.update(annotation_table())
     rreqs = []
     for gname, variants_ in groups.items():
         for vname, src in variants_:
@@ -175,7 +211,7 @@ def run(tier):
                     if s_["status"] in ("reject", "error", "nodsp"):
                         s_["status"] = "refused"
                 records.append({"id": lid, "a": a, "b": b, "cmpwords": False})
-                meta[lid] = ({"src": src, "original": variants_[0][1], "transformation": f"record variant {vname}"}, key, be)
+                meta[lid] = ({"src": src, "original": variants_[0][1], "transformation": f"variant {vname} of table group {gname}"}, key, be)
     chk.cov["record_variants"] = len(rreqs)
     fails = langpipe.validate_lockstep(chk, records, "c16")
     for lid, f in fails.items():
